@@ -300,6 +300,23 @@ func cmdCheck(args []string) int {
 	for _, f := range run.funcs {
 		all = append(all, f.Obls...)
 	}
+	if run.scratch && os.Getenv("GOVC_FAIL_FAST") == "1" {
+		known := loadKnown()
+		failFast = func(o *Obligation) bool {
+			if o.Expect == "sat" {
+				return o.Result == "unsat"
+			}
+			if o.Result == "unsat" || o.Result == "dead-path" {
+				return false
+			}
+			for _, k := range known {
+				if matchKnown(k, pf.ID, o.Name) {
+					return false
+				}
+			}
+			return true
+		}
+	}
 	solveAll(all, smtDir, timeout, seed, needTwo, 8)
 	return run.report(time.Since(t0).Seconds())
 }
@@ -352,6 +369,9 @@ func (r *checkRun) report(wall float64) int {
 		if o.Result == "unsat" {
 			discharged++
 			continue
+		}
+		if o.Result == "skipped" {
+			continue // fail-fast run on a scratch copy: not attempted after the first violation
 		}
 		isKnown := false
 		for _, k := range known {
